@@ -18,6 +18,8 @@ import Driver.Util
         (CAP: the read(2) of the handler call delivers at most CAP bytes -- `handleCap`; 0 = EAGAIN although
          data is there; NEINTR: that many reads fail with EINTR first -- retried inside cbuf.c, invisible here)
     run i s HEX ...  (whole stream = `runStream`)   -> run <th->rc|-> | S:HEX ...
+    rcperr i e POPT RV HEX ...  (`_parallel_copy` with pcp_server/pcp_client returning RV)
+                                                    -> rcp <RV> | S:HEX ...
     xrc HEX                                         -> <ret> <string left>
 
     spec lines:  rec <o|e> L K i N name_0 .. name_{N-1} S K' em_1 .. em_K'
@@ -100,6 +102,17 @@ def step (ops : BufOps β) (mk : Option β) (sizeMeta : Nat) (split : Bool)
               let (r, strm', rc', ems) :=
                 handleCap ops cs.cfg host.name sno readRc (capOf more[0]?) { strm with weof := true } host.rc
               (put strm' rc', answer 1 r rc' ems)
+            else if op = "rcperr" then
+              -- `_parallel_copy`: rcperr i e POPT RV HEX.. -- the remote stderr of a pdcp/rpdcp target
+              match more with
+              | popt :: rv :: chunks =>
+                match rv.toInt?, chunks.mapM Hex.decode with
+                | some rv, some chunks =>
+                  let ems := parallelCopyStderr ops cs.cfg host.name t0 (popt ≠ "0") rv strm.buf chunks
+                  let strm' : Stream β := { strm with pipe := [], weof := true, closed := true }
+                  (put strm' host.rc, s!"rcp {rv} |" ++ emsText ems)
+                | _, _ => (st, "bad-op")
+              | _ => (st, "bad-op")
             else if op = "run" then
               -- a whole stream at once: `runStream`, the function the theorems of Props/C05, C06 are about
               match more.mapM Hex.decode with
